@@ -23,7 +23,10 @@ def check(prog, rep):
     Z.check_crosstab_keys(prog, rep, m, 'crosstab')
     Z.check_crosstab_merge(prog, rep, m, 'crosstab')
     Z.check_strides(prog, rep, m, 'crosstab')      # the stride routine (its cursor is decided there, semantically)
+    Z.check_alignment(prog, rep, m, 'crosstab', 'crosstab[dask]')       # the blocks that are paired are the aligned ones
+    Z.check_layer_dim(prog, rep, m.funcs['crosstab'], 'crosstab')
     Z.cursor_floor(prog, rep, pub, 1)
+    rep.floor('X-layer', 1)
     rep.floor('Z2', 2)
     rep.floor('Z3', 3)
     rep.floor('Z4', 2)
